@@ -128,6 +128,28 @@ def sc_cached_twice(cx, minimizer, q):
     cx.eq("twice/%s/%s:same-answer" % (minimizer, q), b, a)
 
 
+def sc_asym_kept(cx, minimizer, q):
+    """asymmetric uncertainties computed by the fit stay available (result dictionary) after a query that only saves and
+    restores the minimizer state (covariance / correlation / Hessian) or only reads"""
+    pb = B.build(cx, "xy", minimizer, sources=[("SA", "y", "data")], rho=0)
+    pb.assume_pd()
+    cx.assume(pb.x[0] != pb.x[1])
+    fit = pb.fit
+    fit.do_fit(asymmetric_parameter_errors=True)
+    a0 = fit.get_result_dict()["asymmetric_parameter_errors"]
+    tag = "asym-kept/%s/%s" % (minimizer, q)
+    cx.concrete(tag + ":computed-by-the-fit", a0 is not None)
+    if a0 is None:
+        return
+    flat = lambda a: [list(a[k]) for k in fit.parameter_names] if isinstance(a, dict) else [list(r) for r in a]  # noqa: E731
+    a0 = flat(a0)
+    _query(cx, fit, q)
+    a1 = fit.get_result_dict()["asymmetric_parameter_errors"]
+    cx.concrete(tag + ":still-in-the-result-dictionary", a1 is not None)
+    if a1 is not None:
+        cx.eq(tag + ":unchanged", flat(a1), a0)
+
+
 def sc_numeric(cx, minimizer, variant):
     """concrete-only sampling with the real backends: every query twice, state compared after each"""
     import numpy as np
@@ -195,6 +217,10 @@ def scenarios(tier, seed):
                 S.append(Scenario("queries/%s/%s/%s" % (minimizer, variant, ",".join(seq)), sc_queries, family="queries/%s/%s" % (minimizer, "+".join(sorted(set(seq)))), params=dict(minimizer=minimizer, seq=seq, variant=variant)))
         for qq in ("cov", "cor", "hessian", "asymmetric", "errors", "cost", "gof", "result_dict"):
             S.append(Scenario("twice/%s/%s" % (minimizer, qq), sc_cached_twice, family="twice", params=dict(minimizer=minimizer, q=qq)))
+        for qq in ("cov", "cor", "hessian", "errors", "cost", "result_dict", "report"):
+            if q and minimizer == "scipy":
+                continue  # the generic root-finding path is slow to execute symbolically: thorough tier
+            S.append(Scenario("asym-kept/%s/%s" % (minimizer, qq), sc_asym_kept, family="asym-kept", params=dict(minimizer=minimizer, q=qq)))
         for variant in ("plain", "x-errors", "limited"):
             S.append(Scenario("numeric/%s/%s" % (minimizer, variant), sc_numeric, family="numeric/%s" % minimizer, params=dict(minimizer=minimizer, variant=variant), concrete_only=True))
     S.append(Scenario("twin/set-moves-the-fit", sc_twin, twin=True))
